@@ -317,7 +317,7 @@ func DecryptWrappedRegistrationInfo(ctx context.Context, reqInfo *types.FetchNod
 		return nil, fmt.Errorf("(%s) %s", op, err.Error())
 	}
 
-	registrationInfoBytes, err := opts.WithRegistrationWrapper.Decrypt(ctx, blobInfo)
+	registrationInfoBytes, err := decryptUntrustedBlob(ctx, opts.WithRegistrationWrapper, blobInfo)
 	if err != nil {
 		err := fmt.Errorf("error decrypting encrypted wrapped registration info: %w", err)
 		opts.WithLogger.Error(err.Error(), "op", op)
@@ -332,4 +332,17 @@ func DecryptWrappedRegistrationInfo(ctx context.Context, reqInfo *types.FetchNod
 	}
 
 	return registrationInfo, nil
+}
+
+// decryptUntrustedBlob decrypts a blob whose contents were supplied by a remote
+// party. Some wrapper implementations (e.g. the aead wrapper) slice into the
+// ciphertext without validating its length and panic on malformed input; since
+// this runs while handling a connection, turn that into a decryption error.
+func decryptUntrustedBlob(ctx context.Context, wrapper wrapping.Wrapper, blobInfo *wrapping.BlobInfo) (pt []byte, err error) {
+	defer func() {
+		if r := recover(); r != nil {
+			pt, err = nil, fmt.Errorf("panic while decrypting blob: %v", r)
+		}
+	}()
+	return wrapper.Decrypt(ctx, blobInfo)
 }
